@@ -89,7 +89,7 @@ theorem outflow_feeQueue (feeOn : Bool) (t : Txn) (tr sg : List Transfer) (i : I
       simp [h, this, outflow]
 
 theorem mem_feeQueue (feeOn : Bool) (t : Txn) (tr sg : List Transfer) (x : Transfer)
-    (h : x ∈ feeQueue feeOn t tr sg) : x ∈ tr ∨ x ∈ sg ∨ x = ⟨t.sender, minerSC, t.fee, true⟩ := by
+    (h : x ∈ feeQueue feeOn t tr sg) : x ∈ tr ∨ x ∈ sg ∨ x = ⟨t.sender, minerSC, t.fee, true, false⟩ := by
   unfold feeQueue at h
   cases feeOn with
   | false => simp at h; rcases h with h | h; exact Or.inl h; exact Or.inr (Or.inl h)
@@ -110,7 +110,7 @@ def queuedOut (feeOn : Bool) (s : St) (t : Txn) (r : CResult) (i : Id) : Nat :=
 /-- shape of what a transaction hands to settlement. -/
 theorem plan_cases (s : St) (t : Txn) (r : CResult) (p : Plan) (h : plan s t r = some p) :
     (p.transfers = [] ∧ p.signed = []) ∨
-    (t.typ = .send ∧ p.transfers = [⟨t.sender, t.to, t.value, t.toCanon⟩] ∧ p.signed = []) ∨
+    (t.typ = .send ∧ p.transfers = [⟨t.sender, t.to, t.value, t.toCanon, t.toSameLeaf⟩] ∧ p.signed = []) ∨
     (t.typ = .sc ∧ ∃ ws, r = .ok ws p.transfers p.signed) := by
   unfold plan at h
   split at h
@@ -227,7 +227,7 @@ theorem engine_does_not_enforce :
       (step feeOn s t r).2 = .success ∧ i ≠ t.sender ∧ i ≠ t.to ∧ i ≠ minerSC ∧
       (∃ ws tr, r = .ok ws tr []) ∧
       (get (step feeOn s t r).1.accts i).balance < (get s.accts i).balance :=
-  ⟨true, c04S, c04T, .ok [] [⟨5, 3, 500, true⟩] [], 5, by decide, by decide, by decide, by decide, ⟨_, _, rfl⟩, by decide⟩
+  ⟨true, c04S, c04T, .ok [] [⟨5, 3, 500, true, false⟩] [], 5, by decide, by decide, by decide, by decide, ⟨_, _, rfl⟩, by decide⟩
 
 /-- the cap "transfers out of the sender ≤ value (+ fee)" is not enforced after execution either: the sender
 of a value-100, fee-10 call is debited 910. -/
@@ -235,7 +235,7 @@ theorem engine_does_not_cap_sender :
     ∃ (feeOn : Bool) (s : St) (t : Txn) (r : CResult),
       (step feeOn s t r).2 = .success ∧
       (get (step feeOn s t r).1.accts t.sender).balance + t.value + feeOf feeOn t < (get s.accts t.sender).balance :=
-  ⟨true, c04S, c04T, .ok [] [⟨3, 7, 900, true⟩] [], by decide, by decide⟩
+  ⟨true, c04S, c04T, .ok [] [⟨3, 7, 900, true, false⟩] [], by decide, by decide⟩
 
 /-- a signed transfer is applied like any other: the model (like the engine) has no signature to look at
 after execution. -/
@@ -244,7 +244,7 @@ theorem engine_does_not_check_signed :
       (step feeOn s t r).2 = .success ∧ i ≠ t.sender ∧ i ≠ t.to ∧
       (∃ ws sg, r = .ok ws [] sg) ∧
       (get (step feeOn s t r).1.accts i).balance < (get s.accts i).balance :=
-  ⟨true, c04S, c04T, .ok [] [] [⟨5, 3, 500, true⟩], 5, by decide, by decide, by decide, ⟨_, _, rfl⟩, by decide⟩
+  ⟨true, c04S, c04T, .ok [] [] [⟨5, 3, 500, true, false⟩], 5, by decide, by decide, by decide, ⟨_, _, rfl⟩, by decide⟩
 
 /-! ### composition: allowed source classes ⇒ the property -/
 
@@ -431,12 +431,12 @@ theorem contracts_debit_only_authorised_table (A : Authority) (feeOn : Bool) (s 
 -- non-vacuity of the composition: an authorised contract result (sender pays its value to the contract, the
 -- contract pays a third party) goes through, debits the sender by exactly value + fee and the contract's wallet.
 def exA : Authority := { minter := fun _ => False, sigValid := fun _ => False, grantSource := 99, grantValid := False }
-example : Authorised exA c04T [⟨3, 7, 100, true⟩, ⟨7, 5, 40, true⟩] [] :=
+example : Authorised exA c04T [⟨3, 7, 100, true, false⟩, ⟨7, 5, 40, true, false⟩] [] :=
   ⟨(by intro x hx; simp at hx; rcases hx with h | h <;> subst h <;> simp [Authority.srcOk, c04T]),
    (by intro x hx; cases hx), (by decide)⟩
-example : (step true c04S c04T (.ok [] [⟨3, 7, 100, true⟩, ⟨7, 5, 40, true⟩] [])).2 = .success := by decide
-example : (get (step true c04S c04T (.ok [] [⟨3, 7, 100, true⟩, ⟨7, 5, 40, true⟩] [])).1.accts 3).balance = 890 := by decide
-example : (get (step true c04S c04T (.ok [] [⟨3, 7, 100, true⟩, ⟨7, 5, 40, true⟩] [])).1.accts 7).balance = 5060 := by decide
+example : (step true c04S c04T (.ok [] [⟨3, 7, 100, true, false⟩, ⟨7, 5, 40, true, false⟩] [])).2 = .success := by decide
+example : (get (step true c04S c04T (.ok [] [⟨3, 7, 100, true, false⟩, ⟨7, 5, 40, true, false⟩] [])).1.accts 3).balance = 890 := by decide
+example : (get (step true c04S c04T (.ok [] [⟨3, 7, 100, true, false⟩, ⟨7, 5, 40, true, false⟩] [])).1.accts 7).balance = 5060 := by decide
 
 end ZChain.TransferSites
 
